@@ -46,6 +46,11 @@ def generate(seed, tier, k):
             # unstructured-like mesh: several cells start at the same point
             mesh = {"gen": "Circle", "n": [r.choice([2, 3])], "radius": 1.0, "a": [-1.0, -1.0], "b": [2.0, 2.0]}
             fkind = "PlaneStrain"
+        if gen.kpick(seed, "many-cells", 10) == 0:
+            # a few hundred cells of unequal size (more than any table of small numbers holds)
+            dim = 2
+            mesh = {"gen": "Rectangle", "n": [19, 16], "a": [0.0, 0.0], "b": [2.0, 1.5], "perturb": {"seed": seed % (1 << 30), "amp": 0.2}}
+            fkind = ("PlaneStrain", "Axi")[gen.kpick(seed, "many-cells-kind", 2)]
         bulk = round(mu * r.choice([5.0, 20.0, 100.0, 1000.0, 5000.0]), 3)
         doc["items"] = [{"type": "SolidBodyNearlyIncompressible", "umat": {"name": "NeoHooke", "p": {"mu": mu}}, "bulk": bulk}]
     elif mode == "uniform":
